@@ -123,6 +123,7 @@ type boundsSite struct {
 // initFactEngine prepares the global state of the linear-arithmetic fact engine for this program.
 func (c *Ctx) initFactEngine() {
 	feCtx = c
+	resetCachesY1()
 	paramNonNegCache = map[*ssa.Parameter]int{}
 	entryFactCache = map[*ssa.Function][]Lin{}
 	phiRangeCache = map[*ssa.Phi]*constRange{}
@@ -137,6 +138,7 @@ func (c *Ctx) initFactEngine() {
 	computeModSets(ssautil.AllFunctions(c.prog))
 	c.setupClassInvariants()
 	c.establishSlotInvariants(c.prop == "C01")
+	entryFactCache = map[*ssa.Function][]Lin{} // what was derived before the invariants stood is derived again with them
 	c.loadAssumptions()
 	c.classInvRules(c.prop == "C01" || c.prop == "C05")
 }
@@ -351,6 +353,8 @@ func (c *Ctx) boundsObligations(fns []*ssa.Function, bce map[string]bool, floor 
 						ok, tactic = true, "FindSubmatch contract (1+NumSubexp elements when non-nil)"
 					case fi.monotoneCapacity(ins, mono):
 						ok, tactic = true, "monotone capacity of an append-only slot"
+					case fi.monotoneCapacityParam(ins, mono):
+						ok, tactic = true, "monotone capacity of an append-only slot (reached through its address in a helper; bound shown at every call site)"
 					case fi.abduceEntryFacts(goals, facts) && fi.prove(goals, fi.factsAt(b, ins), 0):
 						ok, tactic = true, "fact engine, with a relation between the parameters shown at every call site"
 					}
@@ -493,6 +497,7 @@ func newFuncInfo(fn *ssa.Function) *funcInfo {
 		}
 	}
 	fi.resultObjectLens()
+	fi.relReady = true
 	return fi
 }
 
